@@ -366,16 +366,12 @@ theorem processResume_inv (a : Acc) (c : Nat) (os : Option Nat) (hi : Inv a.h) :
         · simp only [hk, if_true]; exact hi
         · simp only [hk, if_false]
           have hr := resumeTables_inv hi hx hk hopen hfree
+          have hA : (flushPending (resumeAcc a c s x) s x.pending).h = resumeTables a.h c s x := by
+            rw [flushPending_h]; rfl
           by_cases hn : needsParticipants x.pending = true
           · simp only [hn, if_true]
-            refine hr.congr ?_
-            have := notifyResumed_core (flushPending { a with h := resumeTables a.h c s x, outs := (a.outs ++
-                match x.conn with
-                | some p => [⟨p, Msg.bye "session_resumed", some x.backend⟩]
-                | none => []) ++ [⟨c, .hello s (userOf (resumeTables a.h c s x) s { x with conn := some c, pending := [] }), some x.backend⟩] } s x.pending) s
-            rw [flushPending_h] at this
-            exact this
-          · simp only [hn, Bool.false_eq_true, if_false]; rw [flushPending_h]; exact hr
+            exact hr.congr (coreOf (notifyResumed_core _ _) hA)
+          · simp only [hn, Bool.false_eq_true, if_false]; rw [hA]; exact hr
 
 set_option maxHeartbeats 4000000 in
 theorem disconnectTables_inv {h : Hub} (hi : Inv h) {c s : Nat} (hcs : h.connSess c = some s) :
